@@ -2,6 +2,7 @@
 
 History process H (one fork of the zygote runs the whole plan) versus one pristine
 fork P per compared load.  See DESIGN.md §4.2."""
+import copy
 import posixpath
 
 from . import gen as G
@@ -80,6 +81,8 @@ def gen_plan(rng):
         for j in range(rng.randint(1, 2)):
             write_lib(j)
 
+    earlier = []           # (script, delivery, maindir, libs) of earlier valid loads
+    same_main = rng.random() < 0.4
     defined = []           # names defined by earlier scripts (for echo probes)
     recent = []            # names defined by the most recent failed/faulted script
     prev_bad = False
@@ -118,6 +121,11 @@ def gen_plan(rng):
             lib = rng.choice(use_libs) if use_libs else None
             script = G.echo_probe(rng, recent or defined, cfg["pool"], lib)
             kind = "echo"
+        elif earlier and rng.random() < 0.15:
+            # the very same text (and, for load, the same file name) as an earlier load:
+            # a result cached per text or per path would be handed out a second time
+            script, delivery, maindir, use_libs = copy.deepcopy(rng.choice(earlier))
+            kind = "repeat"
         else:
             sg = G.ScriptGen(rng, cfg, libs=use_libs)
             script = sg.build()
@@ -139,6 +147,8 @@ def gen_plan(rng):
                     script = G.plant_failure(rng, script, planted, cfg["pool"])
                 else:
                     script = G.plant_failure(rng, script, planted, cfg["pool"])
+        if kind == "normal" and not planted:
+            earlier.append((script, delivery, maindir, use_libs))
         st = {"out": "o%d" % j, "script": {"head": script["head"], "items": script["items"]},
               "kind": kind}
         if planted:
@@ -148,7 +158,8 @@ def gen_plan(rng):
         if delivery == "loads":
             st["op"] = "loads"
         else:
-            path = posixpath.join(maindir, "main%d.xbb" % j)
+            # sometimes every load of the history reads the same (rewritten) file name
+            path = posixpath.join(maindir, "main.xbb" if same_main else "main%d.xbb" % j)
             steps.append({"op": "write", "path": path, "script": st.pop("script")})
             st["op"] = "load"
             st["path"] = path
